@@ -743,6 +743,10 @@ func (b *build) run() {
 	if panicked {
 		c.Violate("Engine.Execute/panic", msg, tw)
 	}
+	// the same flag word handed over through other option lists (optionlists.go): same verdict, same run
+	if !panicked {
+		b.underOptionLists(tw, lock, err, rec.Snaps)
+	}
 	// a run resumed from any snapshot a debugger was handed after a step (interpreter.WithState) ends as the
 	// uninterrupted run does: the snapshot carries everything the rest of the execution depends on, the position of the
 	// last executed OP_CODESEPARATOR included (cases with a separator, a sample of the others)
@@ -1926,6 +1930,9 @@ func main() {
 	c.ShardBytes = 45000
 	c.PerShard = 60
 	r := common.NewRand(c.Seed)
+	if c.Thorough() {
+		optListsPerCase = 6
+	}
 	familyCheckSig(r.Fork())
 	familySeparators(r.Fork())
 	familyMultisigArrangements(r.Fork())
@@ -1942,6 +1949,8 @@ func main() {
 	familyScriptConstants(r.Fork())
 	familyLongSignatures(r.Fork())
 	familyShortSignatures(r.Fork())
-	c.Stats.Rule = "seeded secp256k1 keys; spending transactions of 1-3 inputs x 0-3 outputs with every input index; signatures by an independent spec signer (script code walked per the specification, digest, ECDSA with chosen nonce). Families: OP_CHECKSIG(VERIFY) under all 2^6 subsets of {STRICTENC, DERSIG, LOW_S, NULLDUMMY, NULLFAIL, FORKID} x both eras with conforming / high-S / hybrid-key / empty / wrong-key signatures always and rotating 15 DER shapes x 8 key encodings x 17 hash types (6 FORKID, 6 legacy, 5 undefined); OP_CODESEPARATOR at index 0, between pushes, after the operation, doubled, in taken / untaken IF and ELSE branches, in the unlocking script, each with a signature over the specified code and one over the code that ignores separators; m-of-n multisig, every arrangement of correct-for-key-j / wrong-key / wrong-digest / empty signatures exhaustively for n <= 3 (thorough: n <= 4) and sampled above (thorough: up to 20 and 21); 15 multisig scenarios (null dummy, null fail, malformed elements at examined and unexamined positions) under every flag subset; legacy signature removal (FindAndDelete of the exact push) with smallest-form / PUSHDATA1-2-4 / embedded / prefixed / suffixed copies inside and outside the script code, one-byte signatures pushed as 01 05 next to OP_5, empty signatures with OP_0 and separators in the script code, FORKID and original-digest signatures mixed in one multisig with separators after it; key-count and operation-count limits, P2SH, malformed counts, 4- / 5- / 9-byte counts in both eras with and without MINIMALDATA; R or S = n-1, n, n+1, n+5 and a 40-byte R under LOW_S with and without NULLFAIL; empty signature with 11 key encodings under 8 flag sets for OP_CHECKSIG(VERIFY); unlocking scripts ending <sig> ... OP_CODESEPARATOR OP_RETURN after genesis (no stale separator offset in the locking script); a signature the encoding check passes and go-bk cannot parse (R = 0) against malformed keys at every position; the three deviations kept as known findings (65-byte key with prefix 05, lax DER without DER flags, opcodes after a top-level OP_RETURN in the original digest), where the expected verdict is the node's (key validity by prefix and length, ecdsa_signature_parse_der_lax re-implemented in harness/sigspec); 22 value-transforming opcode snippets run on constants pushed from the locking script (and on an operand from the unlocking script) before <pk> OP_CHECKSIG: the script code stays the spent output's script; lax-encoded valid signatures (leading zero bytes in R and / or S) of 74, 75, 76, 77, 78, 79, 97 and 130 bytes with their hash type - the push of the signature is a length byte up to 75 bytes and OP_PUSHDATA1 from 76 on - with a copy inside the script code in 6 forms (smallest push, OP_PUSHDATA1 / 2 / 4, one byte appended / prepended), signed over the code without the copy, so valid exactly when the specification removes it, for OP_CHECKSIG(VERIFY), 1-of-1 and 1-of-2 OP_CHECKMULTISIG(VERIFY), without the DER flags; the same under the FORKID digest (nothing removed); multisigs with copies of a long and a DER-sized signature, also under each DER flag, where the long one is an encoding error once it is reached; signature items of 1, 2 and 3 bytes (the hash-type byte alone: 01 41 83 c2 00 50; 30 01; 00 41; 30 00 02) under all 16 subsets of {NULLDUMMY, NULLFAIL, FORKID, genesis} and 4 flag sets with a DER flag, 7 key encodings rotating, OP_CHECKSIG(VERIFY) and as the only / the first examined / the second examined signature of an OP_CHECKMULTISIG(VERIFY): under NULLFAIL a failed check of a non-empty item is an error. distinct = distinct (scripts, flags, transaction, index, value); non-trivial = at least one go-bk oracle query was needed"
+	familyOptionLists(r.Fork())
+	finishOptionLists()
+	c.Stats.Rule = "seeded secp256k1 keys; spending transactions of 1-3 inputs x 0-3 outputs with every input index; signatures by an independent spec signer (script code walked per the specification, digest, ECDSA with chosen nonce). Families: OP_CHECKSIG(VERIFY) under all 2^6 subsets of {STRICTENC, DERSIG, LOW_S, NULLDUMMY, NULLFAIL, FORKID} x both eras with conforming / high-S / hybrid-key / empty / wrong-key signatures always and rotating 15 DER shapes x 8 key encodings x 17 hash types (6 FORKID, 6 legacy, 5 undefined); OP_CODESEPARATOR at index 0, between pushes, after the operation, doubled, in taken / untaken IF and ELSE branches, in the unlocking script, each with a signature over the specified code and one over the code that ignores separators; m-of-n multisig, every arrangement of correct-for-key-j / wrong-key / wrong-digest / empty signatures exhaustively for n <= 3 (thorough: n <= 4) and sampled above (thorough: up to 20 and 21); 15 multisig scenarios (null dummy, null fail, malformed elements at examined and unexamined positions) under every flag subset; legacy signature removal (FindAndDelete of the exact push) with smallest-form / PUSHDATA1-2-4 / embedded / prefixed / suffixed copies inside and outside the script code, one-byte signatures pushed as 01 05 next to OP_5, empty signatures with OP_0 and separators in the script code, FORKID and original-digest signatures mixed in one multisig with separators after it; key-count and operation-count limits, P2SH, malformed counts, 4- / 5- / 9-byte counts in both eras with and without MINIMALDATA; R or S = n-1, n, n+1, n+5 and a 40-byte R under LOW_S with and without NULLFAIL; empty signature with 11 key encodings under 8 flag sets for OP_CHECKSIG(VERIFY); unlocking scripts ending <sig> ... OP_CODESEPARATOR OP_RETURN after genesis (no stale separator offset in the locking script); a signature the encoding check passes and go-bk cannot parse (R = 0) against malformed keys at every position; the three deviations kept as known findings (65-byte key with prefix 05, lax DER without DER flags, opcodes after a top-level OP_RETURN in the original digest), where the expected verdict is the node's (key validity by prefix and length, ecdsa_signature_parse_der_lax re-implemented in harness/sigspec); 22 value-transforming opcode snippets run on constants pushed from the locking script (and on an operand from the unlocking script) before <pk> OP_CHECKSIG: the script code stays the spent output's script; lax-encoded valid signatures (leading zero bytes in R and / or S) of 74, 75, 76, 77, 78, 79, 97 and 130 bytes with their hash type - the push of the signature is a length byte up to 75 bytes and OP_PUSHDATA1 from 76 on - with a copy inside the script code in 6 forms (smallest push, OP_PUSHDATA1 / 2 / 4, one byte appended / prepended), signed over the code without the copy, so valid exactly when the specification removes it, for OP_CHECKSIG(VERIFY), 1-of-1 and 1-of-2 OP_CHECKMULTISIG(VERIFY), without the DER flags; the same under the FORKID digest (nothing removed); multisigs with copies of a long and a DER-sized signature, also under each DER flag, where the long one is an encoding error once it is reached; signature items of 1, 2 and 3 bytes (the hash-type byte alone: 01 41 83 c2 00 50; 30 01; 00 41; 30 00 02) under all 16 subsets of {NULLDUMMY, NULLFAIL, FORKID, genesis} and 4 flag sets with a DER flag, 7 key encodings rotating, OP_CHECKSIG(VERIFY) and as the only / the first examined / the second examined signature of an OP_CHECKMULTISIG(VERIFY): under NULLFAIL a failed check of a non-empty item is an error; the way the flags reach the engine: every case is run again with its flag word handed over through other option lists denoting the same word (WithForkID() / WithAfterGenesis() / WithP2SH() before, after and around WithFlags(rest) or WithFlags(word), the word cut into two or into single flags in both orders, overlapping words, WithFlags(0) and repeated words, the flag options before / after / around WithTx and WithDebugger; 2 lists per case rotating, thorough 6) and must give the same verdict, step count and stack snapshots, and 72 cases whose verdict one flag alone decides (each of the six flags on top of none and of all the others in both eras, 21 keys after genesis, P2SH) under EVERY such list. distinct = distinct (scripts, flags, transaction, index, value); non-trivial = at least one go-bk oracle query was needed"
 	c.Finish()
 }
